@@ -9,7 +9,7 @@ open Petl.Gen
 
 def expectedC19 : List (String × String) := [
   ("transform.conversions.FieldConvertView", "b1346e6539cc1ac2"),
-  ("transform.conversions.iterfieldconvert", "463dce8a1dd7af86"),
+  ("transform.conversions.iterfieldconvert", "ee107c581a77cc3a"),
   ("transform.maps.FieldMapView", "25107991aea0e6ce"),
   ("transform.maps.RowMapManyView", "53fd3c192fcd4b8f"),
   ("transform.maps.RowMapView", "635dac7cc87be32d"),
